@@ -63,6 +63,16 @@ class Tokenizer:
     def advance(self, state, prev, b, phase):
         """Evaluate acceptance at the current position under look-ahead b
         (phase: 'pre' | 'cut' | 'post'), then consume b.  -> new state."""
+        cache = self.__dict__.setdefault('_adv_cache', {})
+        key = (state, prev, b, phase)
+        r = cache.get(key)
+        if r is None:
+            r = self._advance(state, prev, b, phase)
+            if len(cache) < 2000000:
+                cache[key] = r
+        return r
+
+    def _advance(self, state, prev, b, phase):
         out = []
         mal = state[-1][2] if (state and state[-1][0] == -1) else None
         for (i, S, flag, com) in state:
@@ -274,3 +284,156 @@ def _rebuild(seen, st, _extra):
         if b != END:
             out.append(b)
     return bytes(out), cut
+
+
+# ---------------------------------------------------------------------------
+# no-glue search (C01 / C19)
+
+CODE_KINDS = ('name', 'label', 'keyword', 'number', 'symbol', 'string')
+
+
+def glue_search(tok, row_info, sep_of, adjacent, max_states=600000,
+                extra_bytesets=(), stats=None):
+    """Search for u, v, w such that the minifier, having emitted token u (kind
+    A), the separator sep_of(A-info, B-info, last byte of u, first byte of v)
+    and token v (kind B), produces text  u + sep + v + w  whose FIRST token is
+    not u with kind A.
+
+    tok       -- the implementation Tokenizer
+    row_info  -- {row index: (kind, fixed spelling or None)}
+    sep_of    -- f(infoA, infoB, last_u, first_v) -> bytes (b'' or b' ')
+    adjacent  -- f(infoA, infoB) -> bool (grammar adjacency)
+    Returns a list of witnesses (dicts), one per (A, B) class pair.
+    """
+    sets = set(tok.bytesets()) | set(extra_bytesets) | {frozenset([32])}
+    class_of, reps = rx.partition(sets)
+    bytes_syms = list(reps)
+    found = {}
+    init = tok.initial()
+    start = ('U', init, None, None)
+    seen = {start: None}
+    queue = [start]
+    n = 0
+
+    def info_of(verdict):
+        kind, row = verdict[1], verdict[2]
+        return row_info.get(row, (kind, None))
+
+    def push(st, parent, sym, tag):
+        if st not in seen:
+            seen[st] = (parent, sym, tag)
+            queue.append(st)
+
+    def witness(st):
+        parts = {'u': bytearray(), 's': bytearray(), 'v': bytearray(),
+                 'w': bytearray()}
+        chain = []
+        while seen.get(st) is not None:
+            (pst, sym, tag) = seen[st]
+            chain.append((sym, tag))
+            st = pst
+        for (sym, tag) in reversed(chain):
+            if sym is not None and sym != END:
+                parts[tag].append(sym)
+        return {k: bytes(v) for k, v in parts.items()}
+
+    while queue:
+        st = queue.pop(0)
+        n += 1
+        if n > max_states:
+            raise rx.Unsupported('glue search too large')
+        ph = st[0]
+        if ph == 'U':
+            (_p, T3, prev, last_u) = st
+            for b in bytes_syms:
+                # (1) u continues
+                T3n = tok.advance(T3, prev, b, 'pre')
+                if tok.alive(T3n):
+                    push(('U', T3n, rx._prev_key(b), b), st, b, 'u')
+            if last_u is None:
+                continue
+            # (2) u ends here: standalone verdict
+            v1 = tok.verdict(tok.advance(T3, prev, END, 'cut'))
+            if v1[0] != 'yes':
+                continue
+            infoA = info_of(v1)
+            if infoA[0] not in CODE_KINDS:
+                continue
+
+            def settled(T):
+                # the first token is already decided and it is u: no glue
+                if tok.alive(T):
+                    return False
+                vv = tok.verdict(T)
+                return vv[0] == 'yes' and vv[1] == infoA[0]
+            for sep in (b'', b' '):
+                if sep:
+                    T3c = tok.advance(T3, prev, 32, 'cut')
+                    if settled(T3c):
+                        continue
+                    push(('V0', T3c, rx._prev_key(32), infoA, sep, last_u,
+                          True), st, 32, 's')
+                else:
+                    push(('V0', T3, prev, infoA, sep, last_u, False),
+                         st, None, 's')
+        elif ph == 'V0':
+            (_p, T3, prev3, infoA, sep, last_u, cut_done) = st
+            for b in bytes_syms:
+                T3n = tok.advance(T3, prev3, b, 'post' if cut_done else 'cut')
+                if not tok.alive(T3n):
+                    vv = tok.verdict(T3n)
+                    if vv[0] == 'yes' and vv[1] == infoA[0]:
+                        continue          # settled: u stays the first token
+                T2n = tok.advance(init, None, b, 'pre')
+                if not tok.alive(T2n):
+                    continue
+                push(('V', T3n, rx._prev_key(b), T2n, rx._prev_key(b), infoA,
+                      sep, last_u, b), st, b, 'v')
+        elif ph == 'V':
+            (_p, T3, prev3, T2, prev2, infoA, sep, last_u, first_v) = st
+            for b in bytes_syms:
+                T3n = tok.advance(T3, prev3, b, 'post')
+                if not tok.alive(T3n):
+                    vv = tok.verdict(T3n)
+                    if vv[0] == 'yes' and vv[1] == infoA[0]:
+                        continue
+                T2n = tok.advance(T2, prev2, b, 'pre')
+                if tok.alive(T2n):
+                    push(('V', T3n, rx._prev_key(b), T2n, rx._prev_key(b),
+                          infoA, sep, last_u, first_v), st, b, 'v')
+            # v ends here (standalone)
+            v2 = tok.verdict(tok.advance(T2, prev2, END, 'cut'))
+            if v2[0] != 'yes':
+                continue
+            infoB = info_of(v2)
+            if infoB[0] not in CODE_KINDS:
+                continue
+            if not adjacent(infoA, infoB):
+                continue
+            if sep_of(infoA, infoB, last_u, first_v) != sep:
+                continue
+            push(('W', T3, prev3, infoA, infoB, sep), st, None, 'w')
+        elif ph == 'W':
+            (_p, T3, prev3, infoA, infoB, sep) = st
+            key = (infoA, infoB)
+            if key in found:
+                continue
+            # end of input here
+            vend = tok.verdict(tok.advance(T3, prev3, END, 'post'))
+            bad = not (vend[0] == 'yes' and vend[1] == infoA[0])
+            if bad:
+                w = witness(st)
+                w.update({'A': infoA, 'B': infoB, 'first_token': vend[:2],
+                          'first_kind': tok.rows[vend[2]].kind
+                          if vend[2] is not None else None})
+                found[key] = w
+                continue
+            if not tok.alive(T3):
+                continue
+            for b in bytes_syms:
+                T3n = tok.advance(T3, prev3, b, 'post')
+                push(('W', T3n, rx._prev_key(b), infoA, infoB, sep), st, b,
+                     'w')
+    if stats is not None:
+        stats['glue_states'] = n
+    return list(found.values())
